@@ -21,6 +21,18 @@ leaf keeps its exact source text and is classified `mconst` (mentions only the c
 globals: constant during a call) or `data` (with the fields it reads).
 Anything outside the understood shape makes the translator refuse that function (recorded in
 Gen/pipeline_manifest.json; the checks turn a refusal into a failed tie obligation).
+
+Second layer (SUB): the bodies of some *stage functions* (atomic at the pipeline level) are translated too, into a
+separate table `subTable` that the pipeline programs do NOT inline.  They are analysed on their own against the
+footprints of their leaf calls to justify the hand-written footprint of the stage (Props/C01.lean,
+`*_refines_footprint`): a branch of such a function that stops determining an array before a leaf reads it shows
+up as a broken proof, whatever option combination reaches it.
+
+Whole-array writes: a call `mju_zero / mju_copy / mju_zeroInt / mju_copyInt / mju_fill / mju_gather / mju_gatherInt
+(d->F, ..., n)` whose destination is exactly the member `d->F` and whose count `n` is, textually, the declared size of
+`F` in mjxmacro.h (a local that is defined exactly once from `m->X` / `d->X` counts as that expression) OVERWRITES F:
+F goes into K and is not read.  (Assumption, validated dynamically by the V1 test of the leaves: the sizes `d->X` a
+function caches in a local do not change while it runs.)
 Output: lean/MjProof/Gen/Pipeline.lean + Gen/pipeline_manifest.json."""
 import json
 import os
@@ -41,6 +53,16 @@ INLINE = [
     ("mj_RungeKutta", FWD),
     ("mj_inverse", INV), ("mj_inverseSkip", INV), ("mj_invVelocity", INV), ("mj_compareFwdInv", INV),
 ]
+# stage functions whose bodies are translated into `subTable` (analysed on their own, not inlined into the pipeline);
+# the third component lists the helpers inlined into them
+SUB = [
+    ("mj_fwdConstraint", FWD), ("warmstart", FWD),
+    ("mj_invConstraint", INV),
+]
+SUB_ROOTS = ["mj_fwdConstraint", "mj_invConstraint"]
+# utilities that overwrite res[0..n): name -> (index of the destination argument, index of the count argument)
+WHOLE_WRITERS = {"mju_zero": (0, 1), "mju_zeroInt": (0, 1), "mju_copy": (0, 2), "mju_copyInt": (0, 2), "mju_fill": (0, 2),
+                 "mju_fillInt": (0, 2), "mju_gather": (0, 3), "mju_gatherInt": (0, 3)}
 IGNORED_CALLS = {"mjcb_time", "snprintf"}
 LOCALS = "$locals"
 TIMER_LOCALS = "$tm"     # the `_tm*` variables of the TM_* timer macros (diagnostics only)
@@ -52,6 +74,51 @@ def local_field(name):
 
 class Refuse(Exception):
     pass
+
+
+_SIZES = None
+
+
+def declared_sizes():
+    """member of mjData -> normalised source text of its element count, from the X-macros of mjxmacro.h
+    (only entries whose second dimension is 1; anything else simply gets no whole-array rule)"""
+    global _SIZES
+    if _SIZES is not None:
+        return _SIZES
+    out = {}
+    try:
+        with open(os.path.join(REPO, "include/mujoco/mjxmacro.h")) as f:
+            src = f.read()
+    except OSError:
+        _SIZES = out
+        return out
+    # join continuation lines, then look at every X(...) / XNV(...) entry inside an MJDATA_* macro
+    src = re.sub(r"\\\n", " ", src)
+    for line in src.split("\n"):
+        m = re.match(r"\s*#define\s+(MJDATA_\w+)\b(.*)", line)
+        if not m:
+            continue
+        macro, body = m.group(1), m.group(2)
+        for e in re.finditer(r"\b(?:X|XNV)\s*\(([^()]*(?:\([^()]*\)[^()]*)*)\)", body):
+            args = [a.strip() for a in re.split(r",(?![^()]*\))", e.group(1))]
+            if len(args) != 4 or args[3] != "1":
+                continue
+            name, nr = args[1], args[2]
+            mm = re.fullmatch(r"MJ_([MD])\((\w+)\)", nr)
+            if mm:
+                size = ("m->" if mm.group(1) == "M" else "d->") + mm.group(2)
+            elif macro == "MJDATA_POINTERS" and re.fullmatch(r"[a-z]\w*", nr):
+                size = "m->" + nr           # buffer pointers are sized by model fields
+            elif re.fullmatch(r"mj[A-Z]\w*|\d+", nr):
+                size = nr                    # a constant
+            else:
+                continue
+            if name in out and out[name] != size:
+                out[name] = None
+            else:
+                out.setdefault(name, size)
+    _SIZES = {k: v for k, v in out.items() if v}
+    return _SIZES
 
 
 _SRC = {}
@@ -133,6 +200,8 @@ class Fn:
         self.atoms = []
         body = [c for c in fdecl["inner"] if c["kind"] == "CompoundStmt"][0]
         self.scan_aliases(body)
+        self.ndefs, self.defexpr = {}, {}
+        self.scan_defs(body)
         self.body = self.stmt(body, in_loop=False)
 
     # ------------------------------------------------------------------ roots and accesses
@@ -213,6 +282,76 @@ class Fn:
                 note(lhs["referencedDecl"]["name"], n["inner"][1])
         for c in n.get("inner", []):
             self.scan_aliases(c)
+
+    def scan_defs(self, n):
+        """definitions of the scalar locals: how many there are, and the defining expression when it is `m->X` / `d->X`"""
+        def note(var, rhs):
+            self.ndefs[var] = self.ndefs.get(var, 0) + 1
+            x = strip(rhs) if rhs is not None else {}
+            if x.get("kind") == "MemberExpr" and "*" not in x.get("type", {}).get("qualType", "*"):
+                base = strip(x["inner"][0])
+                if self.is_d(base):
+                    self.defexpr[var] = "d->" + x["name"]
+                    return
+                if base.get("kind") == "DeclRefExpr" and base.get("referencedDecl", {}).get("name") == self.mname \
+                        and base.get("referencedDecl", {}).get("kind") == "ParmVarDecl":
+                    self.defexpr[var] = "m->" + x["name"]
+                    return
+            self.defexpr[var] = None
+        k = n.get("kind")
+        if k == "VarDecl" and "*" not in n.get("type", {}).get("qualType", "") and "[" not in n.get("type", {}).get("qualType", ""):
+            inits = [c for c in n.get("inner", []) if "kind" in c]
+            if inits:
+                note(n["name"], inits[0])
+        if k in ("BinaryOperator", "CompoundAssignOperator") and (n.get("opcode") == "=" or k == "CompoundAssignOperator"):
+            lhs = strip(n["inner"][0])
+            if lhs.get("kind") == "DeclRefExpr" and lhs.get("referencedDecl", {}).get("kind") == "VarDecl":
+                note(lhs["referencedDecl"]["name"], n["inner"][1] if n.get("opcode") == "=" else None)
+        if k == "UnaryOperator" and n.get("opcode") in ("++", "--", "&"):
+            x = strip(n["inner"][0])
+            if x.get("kind") == "DeclRefExpr" and x.get("referencedDecl", {}).get("kind") == "VarDecl":
+                note(x["referencedDecl"]["name"], None)      # modified (or its address escapes)
+        for c in n.get("inner", []):
+            self.scan_defs(c)
+
+    def size_text(self, a):
+        """normalised text of a count argument: `m->X`, `d->X`, a constant's source text, or None"""
+        x = strip(a)
+        k = x.get("kind")
+        if k == "MemberExpr" and "*" not in x.get("type", {}).get("qualType", "*"):
+            base = strip(x["inner"][0])
+            if self.is_d(base):
+                return "d->" + x["name"]
+            if base.get("kind") == "DeclRefExpr" and base.get("referencedDecl", {}).get("name") == self.mname:
+                return "m->" + x["name"]
+            return None
+        if k == "DeclRefExpr":
+            rd = x.get("referencedDecl", {})
+            if rd.get("kind") == "VarDecl" and rd.get("id") not in self.gvars and self.ndefs.get(rd["name"]) == 1:
+                return self.defexpr.get(rd["name"])
+            if rd.get("kind") == "EnumConstantDecl":
+                return rd["name"]
+            return None
+        if k == "IntegerLiteral":
+            t = src_text(self.path, a)
+            return t if t and re.fullmatch(r"mj[A-Z]\w*|\d+", t) else None
+        return None
+
+    def whole_write(self, nm, args):
+        """the member of mjData that the utility call overwrites completely, or None"""
+        if nm not in WHOLE_WRITERS:
+            return None
+        di, ci = WHOLE_WRITERS[nm]
+        if len(args) <= max(di, ci):
+            return None
+        dst = strip(args[di])
+        if not (dst.get("kind") == "MemberExpr" and self.is_d(dst["inner"][0]) and "*" in dst.get("type", {}).get("qualType", "")):
+            # fixed-size array members decay to a pointer: MemberExpr of array type
+            if not (dst.get("kind") == "MemberExpr" and self.is_d(dst["inner"][0]) and "[" in dst.get("type", {}).get("qualType", "")):
+                return None
+        want = declared_sizes().get(dst["name"])
+        have = self.size_text(args[ci])
+        return dst["name"] if want and have and want == have else None
 
     def root_fields_noalias(self, r):
         if r[0] == "field":
@@ -358,13 +497,16 @@ class Fn:
         m = re.match(r"^(.*?)\((.*)\)$", proto)
         ptypes = [p.strip() for p in m.group(2).split(",")] if m and m.group(2).strip() else []
         reads, writes, kills, calls = set(), set(), set(), []
+        whole = self.whole_write(nm, args)
         for i, a in enumerate(args):
             pt = ptypes[i] if i < len(ptypes) else ""
             at = strip(a).get("type", {}).get("qualType", "") if False else a.get("type", {}).get("qualType", "")
             if "*" in at or "[" in at:
                 r = self.root(a)
                 fs = self.root_fields(r)
-                if pt.startswith("const ") or not pt:
+                if whole is not None and i == WHOLE_WRITERS[nm][0]:
+                    writes |= fs            # overwritten completely: not read
+                elif pt.startswith("const ") or not pt:
                     reads |= fs
                 else:
                     reads |= fs
@@ -374,7 +516,7 @@ class Fn:
                 self.accesses(a, reads, writes, kills, calls, False)
         if calls:
             raise Refuse("nested call inside the arguments of " + text)
-        return {"k": "atom", "text": text, "R": sorted(reads), "W": sorted(writes), "K": []}
+        return {"k": "atom", "text": text, "R": sorted(reads), "W": sorted(writes), "K": [whole] if whole else []}
 
     # ------------------------------------------------------------------ guards
     def guard(self, n, pre):
@@ -630,29 +772,39 @@ def main():
            "GENERATED by translate/skeleton.py from engine_forward.c / engine_inverse.c of the working tree. Do not edit.",
            "-/", "namespace MjProof.Gen.Pipeline", "open MjProof.Prog", ""]
     names, refused, man, stage_calls = [], {}, {}, {}
+    sub_names_out, sub_stage_calls = [], {}
     inline_names = [n for n, _ in INLINE]
-    for name, file in INLINE:
-        path = os.path.join(REPO, file)
-        try:
-            funcs, gvars = c2lean.load_ast(path)
-            if name not in funcs:
-                raise Refuse("function not found in " + file)
-            fn = Fn(path, funcs[name], gvars, inline_names)
-            p = flatten(fn.body)
-            text = "def %s : Prog :=\n  %s\n" % (name, to_lean(p))
-            out.append(text)
-            names.append((name, [q for q in fn.params if "*" not in fn.ptypes[q] and "[" not in fn.ptypes[q]]))
-            man[name] = {"file": file, "sha256": c2lean.func_sha(funcs[name], file), "params": fn.params, "prog": p,
-                         "stage_calls": fn.stage_calls}
-            for k, v in fn.stage_calls.items():
-                stage_calls.setdefault(k, dict(v, used_by=[]))["used_by"].append(name)
-        except (Refuse, c2lean.Refuse, KeyError, IndexError, ValueError, TypeError) as e:
-            refused[name] = "%s: %s" % (type(e).__name__, e)
+    sub_names = [n for n, _ in SUB]
+    for layer, todo in (("pipeline", INLINE), ("sub", SUB)):
+        for name, file in todo:
+            path = os.path.join(REPO, file)
+            try:
+                funcs, gvars = c2lean.load_ast(path)
+                if name not in funcs:
+                    raise Refuse("function not found in " + file)
+                fn = Fn(path, funcs[name], gvars, inline_names if layer == "pipeline" else sub_names)
+                p = flatten(fn.body)
+                text = "def %s : Prog :=\n  %s\n" % (name, to_lean(p))
+                out.append(text)
+                entry = (name, [q for q in fn.params if "*" not in fn.ptypes[q] and "[" not in fn.ptypes[q]])
+                (names if layer == "pipeline" else sub_names_out).append(entry)
+                man[name] = {"file": file, "sha256": c2lean.func_sha(funcs[name], file), "params": fn.params, "prog": p,
+                             "stage_calls": fn.stage_calls, "layer": layer}
+                for k, v in fn.stage_calls.items():
+                    (stage_calls if layer == "pipeline" else sub_stage_calls).setdefault(k, dict(v, used_by=[]))["used_by"].append(name)
+            except (Refuse, c2lean.Refuse, KeyError, IndexError, ValueError, TypeError) as e:
+                refused[name] = "%s: %s" % (type(e).__name__, e)
     out.append("/-- name ↦ parameters and body of every translated function, for inlining pipeline calls -/")
     out.append("def table : List FunDef := [\n" + ",\n".join(
         '  { name := "%s", params := %s, body := %s }' % (n, slist(ps), n) for n, ps in names) + "]\n")
     out.append("/-- keys of the atomic stage calls (calls that receive the mjData and are not inlined) -/")
     out.append("def stageKeys : List String := [\n" + ",\n".join('  "%s"' % esc(k) for k in sorted(stage_calls)) + "]\n")
+    out.append("/-- second layer: bodies of stage functions (and their static helpers), analysed on their own against the\n"
+               "    footprints of their leaf calls; NOT inlined into the pipeline programs -/")
+    out.append("def subTable : List FunDef := [\n" + ",\n".join(
+        '  { name := "%s", params := %s, body := %s }' % (n, slist(ps), n) for n, ps in sub_names_out) + "]\n")
+    out.append("/-- keys of the leaf calls of the second layer -/")
+    out.append("def subStageKeys : List String := [\n" + ",\n".join('  "%s"' % esc(k) for k in sorted(sub_stage_calls)) + "]\n")
     out.append("/-- functions the translator refused (must be empty for the theorems to mean anything) -/")
     out.append("def refused : List String := %s\n" % slist(sorted(refused)))
     out.append("end MjProof.Gen.Pipeline")
@@ -662,7 +814,7 @@ def main():
         tmp = p + ".tmp%d" % os.getpid()
         open(tmp, "w").write(text)
         os.replace(tmp, p)
-    json.dump({"repo": REPO, "functions": man, "refused": refused, "stage_calls": stage_calls},
+    json.dump({"repo": REPO, "functions": man, "refused": refused, "stage_calls": stage_calls, "sub_stage_calls": sub_stage_calls},
               open(os.path.join(gen, "pipeline_manifest.json"), "w"), indent=1)
     print("skeleton: %d functions, %d refused %s" % (len(names), len(refused), refused if refused else ""))
 
